@@ -30,7 +30,8 @@ import (
 )
 
 type LoadIn struct {
-	Tab string `json:"tab"`
+	Tab  string `json:"tab"`
+	Stat string `json:"stat"`
 }
 
 type LoadErr struct {
@@ -90,7 +91,7 @@ func action(v reflect.Value) string {
 	return "ignore"
 }
 
-func inspect(keys []string, rep *childReport) {
+func inspect(keys []string, tblName string, rep *childReport) {
 	var problems []string
 	get := func(inst module.Module, path ...string) reflect.Value {
 		v, err := field(reflect.ValueOf(inst), path...)
@@ -155,7 +156,7 @@ func inspect(keys []string, rep *childReport) {
 	}
 	if len(keys) == 0 {
 		// the table is defined inline: nothing to look up
-	} else if inst, err := module.GetInstance("tbl"); err == nil {
+	} else if inst, err := module.GetInstance(tblName); err == nil {
 		rep.Static = map[string]string{}
 		tbl, ok := inst.(module.Table)
 		if !ok {
@@ -174,7 +175,7 @@ func inspect(keys []string, rep *childReport) {
 			}
 		}
 	} else {
-		problems = append(problems, "tbl: "+err.Error())
+		problems = append(problems, tblName+": "+err.Error())
 	}
 	rep.Inspect = strings.Join(problems, "; ")
 }
@@ -215,7 +216,7 @@ func TestChild(t *testing.T) {
 			switch {
 			case strings.HasPrefix(msg, "READY=1") && !rep.Ready:
 				rep.Ready = true
-				inspect(keys, rep)
+				inspect(keys, os.Getenv("X08_CHILD_TBL"), rep)
 				stopPoke = make(chan struct{})
 				go func(stop chan struct{}) {
 					for {
@@ -270,7 +271,13 @@ func runLoad(it Item, keys []string, dir string) (out LoadOut) {
 	ctx, cancel := context.WithTimeout(context.Background(), 120*time.Second)
 	defer cancel()
 	cmd := exec.CommandContext(ctx, os.Args[0], "-test.run", "^TestChild$", "-test.count", "1")
-	cmd.Env = append(os.Environ(), "X08_CHILD_CFG="+cfg, "X08_CHILD_OUT="+repPath, "X08_CHILD_KEYS="+string(kb))
+	var in LoadIn
+	json.Unmarshal(it.In, &in)
+	tbl := "tbl"
+	if in.Stat == "unnamed" {
+		tbl = "table.static"
+	}
+	cmd.Env = append(os.Environ(), "X08_CHILD_CFG="+cfg, "X08_CHILD_OUT="+repPath, "X08_CHILD_KEYS="+string(kb), "X08_CHILD_TBL="+tbl)
 	var log bytes.Buffer
 	cmd.Stdout, cmd.Stderr = &log, &log
 	runErr := cmd.Run()
